@@ -540,7 +540,7 @@ def m_into_iter_ref(ex, st, fr, c, a, d, r):
 
 def m_into_iter_any(ex, st, fr, c, a, d, r):
     v = a[0]
-    if isinstance(v, VIter) or (isinstance(v, VStruct) and v.name == "Range"):
+    if isinstance(v, VIter) or (isinstance(v, VStruct) and v.name in ("Range", "SegmentReader")):
         return v
     if isinstance(v, VRef):
         return m_into_iter_ref(ex, st, fr, c, a, d, r)
